@@ -4,7 +4,8 @@
        var v = a ;  W1[ W2[ ... A ... ] ] ;  put $v          (nesting depth <= Depth)
    A  (atoms):    put a | fail x | break | continue | return | put $v | set v = b | brk (a function that breaks) | echo b
    W  (wrappers): try/catch | try/finally | try/catch/else/finally | if | for | while-once |
-                  lambda call | fn + call | output capture | exception capture | each | and | pipeline into all
+                  lambda call | fn + call | output capture | exception capture | each | and | pipeline into all |
+                  { tmp v = z; S } | with v = z { S } | { defer { put d }; S }
    One TLC state per program.
    M: meta-theorems of the semantics, checked as invariants on every enumerated program:
        FinallyRuns      the finally block of the outermost try runs (last) on every exit path of its body
@@ -14,6 +15,8 @@
        LogicOneValue    and / or / coalesce output exactly one value when they do not throw
        CaptureTotal     an exception capture never throws
        ChunkStops       the statement after a throwing statement does not run, and runs otherwise
+       Restored         after `{ tmp v = z; S }` / `with v = z { S }` the variable has its old value
+       DeferRuns        the deferred callback of a frame runs last, on every exit path of its body
    G: every program is emitted with the output and exception cause EvalChunk prescribes
       (invariant Emit); the executor renders it, runs it on the real Evaler and compares. *)
 EXTENDS ElvCore, Json
@@ -23,7 +26,7 @@ CONSTANT Depth
 \* ---- AST constructors (schema of DESIGN.md Appendix B.1 / harness/checks/c15/elvcore/ast.go)
 B(s) == [t |-> "str", v |-> s]
 Wa == B(<<97>>)   Wb == B(<<98>>)   Wc == B(<<99>>)   We == B(<<101>>)  Wf == B(<<102>>)  Wx == B(<<120>>)
-W1 == B(<<49>>)   W2 == B(<<50>>)   Wz == B(<<122>>)
+W1 == B(<<49>>)   W2 == B(<<50>>)   Wz == B(<<122>>)  Wd == B(<<100>>)
 V(n) == [t |-> "var", n |-> n, explode |-> FALSE, q |-> <<>>]
 Cmd(n, args) == [t |-> "cmd", head |-> [t |-> "name", n |-> n, q |-> <<>>], args |-> args, opts |-> <<>>]
 CmdX(h, args) == [t |-> "cmd", head |-> h, args |-> args, opts |-> <<>>]
@@ -48,7 +51,8 @@ Atoms == {
 
 \* wrappers: name -> statements around the inner statements S
 WrapNames == {"try-catch", "try-finally", "try-full", "if", "for", "while", "call-lambda", "fn-call",
-              "capture", "xcapture", "each", "and", "pipe-all"}
+              "capture", "xcapture", "each", "and", "pipe-all", "tmp-block", "with", "defer"}
+SetV(e) == P([t |-> "set", lhs |-> <<LV("v")>>, rest |-> 0, rhs |-> <<e>>])
 Wrap(w, S) ==
   CASE w = "try-catch"   -> <<P(Try(Ch(S), <<"e">>, <<Ch(<<P(Put(Wc))>>)>>, <<>>, <<>>))>>
     [] w = "try-finally" -> <<P(Try(Ch(S), <<>>, <<>>, <<>>, <<Ch(<<P(Put(Wf))>>)>>))>>
@@ -66,6 +70,9 @@ Wrap(w, S) ==
     [] w = "each"        -> <<P(Cmd("each", <<Lam(<<"y">>, Ch(S \o <<P(Put(V("y")))>>)), [t |-> "list", es |-> <<W1, W2>>]>>))>>
     [] w = "and"         -> <<P([t |-> "and", args |-> <<[t |-> "cap", c |-> Ch(S)], Wb>>])>>
     [] w = "pipe-all"    -> <<[t |-> "pipe", fs |-> <<CmdX(Lam(<<>>, Ch(S)), <<>>), Cmd("all", <<>>)>>]>>
+    [] w = "tmp-block"   -> <<P(CmdX(Lam(<<>>, Ch(<<P([t |-> "tmp", lhs |-> <<LV("v")>>, rest |-> 0, rhs |-> <<Wz>>])>> \o S)), <<>>))>>
+    [] w = "with"        -> <<P([t |-> "with", assigns |-> <<[lhs |-> <<LV("v")>>, rest |-> 0, rhs |-> <<Wz>>]>>, body |-> Ch(S)])>>
+    [] w = "defer"       -> <<P(CmdX(Lam(<<>>, Ch(<<P(Cmd("defer", <<Lam(<<>>, Ch(<<P(Put(Wd))>>))>>))>> \o S)), <<>>))>>
 
 RECURSIVE Nest(_)
 \* statement templates of nesting depth <= d, with the list of wrapper names from the outside in
@@ -112,6 +119,15 @@ CaptureTotal    == LET p == prog IN InModel(p) /\ OuterW(p) = "xcapture" => Stmt
 ChunkStops      == LET p == prog  r == Result(p)  s == StmtResult(p) IN
                    InModel(p) => /\ (s.exc.c = "ok" => Len(r.out) = Len(s.out) + 1 /\ r.exc.c = "ok")
                                  /\ (s.exc.c # "ok" => r.out = s.out /\ r.exc = s.exc)
+
+\* `tmp` / `with` at the outermost level: whatever the body does to v and however it exits, v has its
+\* old value afterwards (seen by the epilogue `put $v` when the chunk goes on)
+Restored        == LET p == prog  r == Result(p)  s == StmtResult(p) IN
+                   InModel(p) /\ OuterW(p) \in {"tmp-block", "with"} /\ s.exc.c = "ok" =>
+                     r.out[Len(r.out)] = VStr(Wa.v)
+\* the deferred callback of the outermost frame runs last, on every exit path
+DeferRuns       == LET p == prog  s == StmtResult(p) IN
+                   InModel(p) /\ OuterW(p) = "defer" => Len(s.out) >= 1 /\ s.out[Len(s.out)] = VStr(Wd.v)
 
 Emit == LET r == Result(prog) IN
         PrintT(ToJson([ast |-> prog.chunk, oom |-> Skip(r.exc),
